@@ -1664,6 +1664,9 @@ impl Matcher {
             }
         }
 
+        #[cfg(beanpuppy_corrosion_verif)]
+        verif_hooks::before_matcher_commit();
+
         tx.commit()?;
 
         trace!("committed!");
@@ -2412,6 +2415,66 @@ pub fn unpack_columns(mut buf: &[u8]) -> Result<Vec<SqliteValueRef<'_>>, UnpackE
     }
 
     Ok(ret)
+}
+
+/// Pause point for the external verification harness: when armed, the matcher stops after it has sent
+/// the events of a batch and before it commits them (no behaviour unless armed).
+#[cfg(beanpuppy_corrosion_verif)]
+pub mod verif_hooks {
+    use std::sync::{Condvar, Mutex};
+    use std::time::Duration;
+
+    #[derive(Default)]
+    struct Gate {
+        armed: bool,
+        paused: bool,
+        open: bool,
+    }
+
+    static GATE: Mutex<Gate> = Mutex::new(Gate {
+        armed: false,
+        paused: false,
+        open: false,
+    });
+    static CV: Condvar = Condvar::new();
+
+    /// the next matcher batch that sent at least one candidate through `handle_candidates` pauses before its commit
+    pub fn arm() {
+        let mut g = GATE.lock().unwrap();
+        *g = Gate {
+            armed: true,
+            paused: false,
+            open: false,
+        };
+    }
+
+    /// true once a matcher is waiting at the pause point
+    pub fn wait_until_paused(timeout: Duration) -> bool {
+        let g = GATE.lock().unwrap();
+        let (g, _) = CV.wait_timeout_while(g, timeout, |g| !g.paused).unwrap();
+        g.paused
+    }
+
+    /// lets the paused matcher commit; disarms
+    pub fn release() {
+        let mut g = GATE.lock().unwrap();
+        g.open = true;
+        g.armed = false;
+        CV.notify_all();
+    }
+
+    pub(super) fn before_matcher_commit() {
+        let mut g = GATE.lock().unwrap();
+        if !g.armed {
+            return;
+        }
+        g.paused = true;
+        CV.notify_all();
+        while !g.open {
+            g = CV.wait(g).unwrap();
+        }
+        *g = Gate::default();
+    }
 }
 
 #[cfg(test)]
